@@ -3,5 +3,7 @@ CONSTANTS
   One = 16
   MaxW = 4
   MaxX = 4
+  Half = 128
+  MaxBigW = 20
   Mutant = "none"
-INVARIANTS FlagSound CornersSuffice
+INVARIANTS FlagSound CornersSuffice SplitExact SplitTotal WidthSound
